@@ -132,6 +132,10 @@ func resultVal(sig *types.Signature, vals []Val) Val {
 
 // doCall performs a call. in may be nil (deferred call).
 func (x *Exec) doCall(s *State, call *ssa.CallCommon, fnv Val, args []Val, in *ssa.Call) (Val, bool) {
+	// heap entries that are write-restricted (`writers` declarations) survive calls that cannot reach a writer;
+	// calls through interfaces / function values are assumed not to re-enter the writers (they are unexported)
+	x.havocKeep = x.E.preservedAcross(staticFn(call))
+	defer func() { x.havocKeep = nil }()
 	sig := call.Signature()
 	if b, ok := call.Value.(*ssa.Builtin); ok && !call.IsInvoke() {
 		return x.builtin(s, b, call, args)
@@ -626,6 +630,10 @@ func (x *Exec) applyContract(s *State, c *Contract, call *ssa.CallCommon, args [
 					continue
 				}
 			}
+			if id, ok := a.(*spec.Ident); ok && id.Name == "unrestricted" {
+				x.havocAllHeap(s, tag) // everything except write-restricted entries this callee cannot reach
+				continue
+			}
 			preEnv := *callerEnv
 			preEnv.S = &State{heap: pre, pc: nil}
 			x.havocTargetIn(s, &preEnv, a, tag)
@@ -731,7 +739,27 @@ func (x *Exec) fieldContract(v ssa.Value) *FieldContract {
 	}
 	fa, ok := u.X.(*ssa.FieldAddr)
 	if !ok {
-		return nil
+		// a local that was assigned exactly once, from a struct field: f := sc.countErrorFunc; ...; f(x)
+		al, isCell := u.X.(*ssa.Alloc)
+		if !isCell || al.Parent() == nil {
+			return nil
+		}
+		var src *ssa.FieldAddr
+		n := 0
+		for _, b := range al.Parent().Blocks {
+			for _, in := range b.Instrs {
+				if st, ok := in.(*ssa.Store); ok && st.Addr == ssa.Value(al) {
+					n++
+					if ld, ok := st.Val.(*ssa.UnOp); ok {
+						src, _ = ld.X.(*ssa.FieldAddr)
+					}
+				}
+			}
+		}
+		if n != 1 || src == nil {
+			return nil
+		}
+		fa = src
 	}
 	st := fa.X.Type().Underlying().(*types.Pointer).Elem()
 	fld := st.Underlying().(*types.Struct).Field(fa.Field)
